@@ -129,7 +129,7 @@ Proof. intros a b s He. dst s. cbn [evs] in He. subst ev0. unfold_v1. mstep1; pr
 
 (** limits of invoke(call) parameters and of keys *)
 Theorem parse_call_args_param_limit : forall data maxp (s s' : st H1) i,
-  parse_call_args data maxp s = (s', Ok i) -> le_val (firstnN 2 (skipnN 16 data)) <= maxp.
+  parse_call_args data maxp s = (s', Ok i) -> u16 (le_val (firstnN 2 (skipnN 16 data))) <= maxp.
 Proof.
   intros data maxp s s' i. dst s. unfold_v1. mstep1; intros [= <- <-]; try discriminate. arith_close.
 Qed.
@@ -170,4 +170,24 @@ Proof.
     + replace (len + 8388608) with (len + 1 * 8388608) by lia. rewrite N.mod_add by discriminate. apply N.mod_small. lia.
     + replace (len + 8388608) with (len + 1 * 8388608) by lia. rewrite N.div_add by discriminate.
       rewrite N.div_small by lia. reflexivity.
+Qed.
+
+(** O2 (after the fix): the name handled by `send` / `invoke(call)` is scanned and copied only after its
+    length has been checked against MAX_FUNC_NAME_SIZE: all work outside the length-charged copies is
+    bounded by 100 bytes, independently of the length arguments *)
+Ltac fixed_close :=
+  cbv beta iota zeta delta [fst evs fixed_le forallb];
+  repeat (apply andb_true_intro; split); try reflexivity; apply N.leb_le; arith_close.
+
+Theorem send_fixed_work_bounded : forall X a b c d e f g (s : st (host X)), evs s = [] ->
+  fixed_le 100 (evs (fst (send a b c d e f g s))) = true.
+Proof.
+  intros X a b c d e f g s He. destruct s as [e0 m0 ev0 h0]; destruct h0. cbn [evs] in He. subst ev0.
+  unfold_v0. mstep; proj_red; fixed_close.
+Qed.
+Theorem invoke_fixed_work_bounded : forall a b c (s : st H1), evs s = [] ->
+  fixed_le 100 (evs (fst (invoke a b c s))) = true.
+Proof.
+  intros a b c s He. dst s. cbn [evs] in He. subst ev0.
+  unfold_v1. mstep1; proj_red1; fixed_close.
 Qed.
